@@ -11,8 +11,8 @@ RULE = ("exhaustive strings over {a,b,-,space,tab,newline} up to length 5 (quick
         "letters, exact-width lines before newlines; a case is non-trivial if the rendering has >= 2 lines or raises"
         ' Later rounds: text widgets rendered by unnumbered lists / windows - what the widget itself shows afterwards (aliasing); structure check of the rendering modules with a two-thread render race as failing-input search.')
 
-ALPH = "ab- \t\n\r1.é\xa0\x0b\x0c\x1c　\x85—'\"?!_"
-WORDS = ["a", "bb", "ccc", "dddd", "eeeee", "well-known", "x" * 9, "mother-in-law", "foo--bar", "a—b", "1-2", "e.g.", "é", "ß", "\xa0", "--", "-"]
+ALPH = "ab- \t\n\r1.é\xa0\x0b\x0c\x1c　\x85—'\"?!_e\u0301\u2126"          # incl. a combining mark (after "e": a decomposed letter) and OHM SIGN: the text is shown as given, not normalised
+WORDS = ["a", "bb", "ccc", "dddd", "eeeee", "well-known", "x" * 9, "mother-in-law", "foo--bar", "a—b", "1-2", "e.g.", "é", "ß", "\xa0", "--", "-", "cafe\u0301", "a\u030a\u030a", "\u212b\u212a", "ree\u0301e\u0301e\u0301l"]
 LEAN_MODULES = ['C11', 'C11b']
 
 
